@@ -289,9 +289,9 @@ def evaluate(recipe, opt, path, solved=None):
                 net2 = from_mpc(fn, f_hz=f_hz)
     except Exception as e:
         out.status = "failed"
-        single = [k for k in ("bus", "branch") if shapes.get(k) == 1]
+        single = [k for k in ("bus", "branch") if shapes.get(k, 2) <= 1]   # one row -> vector, no row -> empty vector
         if path == "mpc" and single and isinstance(e, IndexError):
-            # scipy.io.loadmat(squeeze_me=True) returns a one-row matrix as a vector
+            # scipy.io.loadmat(squeeze_me=True) returns a one-row (or empty) matrix as a vector
             out.fails.append(("crash/single-row-matrix/%s" % exc_sig(e), dict(error=repr(e)[:300], rows=shapes, single=single)))
         else:
             out.fails.append(("crash/%s" % exc_sig(e), dict(error=repr(e)[:300], rows=shapes, features=cls)))
@@ -415,8 +415,12 @@ def classify(recipe, opt, path, out):
     for name, has, strip in SUSPECTS:
         if has(recipe):
             o = evaluate(strip(recipe), opt, path)
+            kinds = sorted({k.split("/")[0] for k, _ in out.fails})
+            if o.status == "skipped" and out.gclasses:
+                # the variant without conductances has no power flow solution: the attribution cannot be confirmed
+                extra = ("@line" if "line" in out.gclasses else "@" + "+".join(out.gclasses)) if path == "ppc" else ""
+                return [("%s/results-differ/%s%s/unconfirmed" % (path, name, extra), dict(observed=kinds, first=out.fails[0][1]))]
             if o.status == "ok" and not o.fails:
-                kinds = sorted({k.split("/")[0] for k, _ in out.fails})
                 # ppc path: the branch class decides which conversion formula handled the conductance;
                 # file path: the conductances do not reach from_ppc at all, whatever the class
                 extra = ""
